@@ -300,3 +300,55 @@ pub fn logging(on: bool) {
     });
     log::set_max_level(if on { log::LevelFilter::Trace } else { log::LevelFilter::Off });
 }
+
+// ------------------------------------------------------------------------------------------
+// a panic of the crate under test that escapes a sweep is a verdict, not a harness crash
+
+static CRATE_PANICS: Mutex<Vec<(String, String)>> = Mutex::new(Vec::new());
+
+/// Install the process-wide panic hook: it prints as usual and remembers panics raised at a source
+/// location of the crate under test (an absolute path outside the toolchain and the registry; the
+/// harness's own locations are relative).
+pub fn install_panic_probe() {
+    let default = std::panic::take_hook();
+    std::panic::set_hook(Box::new(move |info| {
+        if let Some(loc) = info.location() {
+            let f = loc.file();
+            if f.starts_with('/') && !f.starts_with("/rustc/") && !f.contains("/.cargo/") && !f.contains("/rustlib/") {
+                let msg = if let Some(s) = info.payload().downcast_ref::<&str>() {
+                    s.to_string()
+                } else if let Some(s) = info.payload().downcast_ref::<String>() {
+                    s.clone()
+                } else {
+                    "panic".to_string()
+                };
+                if let Ok(mut l) = CRATE_PANICS.lock() {
+                    if l.len() < 16 {
+                        l.push((format!("{}:{}:{}", f, loc.line(), loc.column()), msg));
+                    }
+                }
+            }
+        }
+        default(info);
+    }));
+}
+
+/// Called when a panic escaped a check: exit 1 with a VIOLATION line if the crate under test
+/// panicked, exit 2 (machinery error) otherwise.
+pub fn escaped_panic(prop: &str, tier: &str) -> ! {
+    let crate_panics = CRATE_PANICS.lock().map(|l| l.clone()).unwrap_or_default();
+    match crate_panics.last() {
+        Some((loc, msg)) => {
+            let dir = format!("{}/replays", VERIF_DIR);
+            let _ = fs::create_dir_all(&dir);
+            let path = format!("{}/{}-{}-panic.json", dir, prop, tier);
+            let what = format!("the crate panicked at {} ({}) while the check was evaluating its inputs, outside any step the check expects to be able to fail", loc, msg);
+            let doc = json!({"property": prop, "what": what, "key": null, "case": {"engine": "panic", "locations": crate_panics.iter().map(|(l, m)| json!({"at": l, "message": m})).collect::<Vec<_>>()}});
+            let _ = fs::write(&path, serde_json::to_string_pretty(&doc).unwrap_or_default());
+            println!("VIOLATION property={} replay={}", prop, path);
+            println!("  what: {}", what);
+            std::process::exit(1)
+        }
+        None => machinery_error("a panic of the harness itself escaped the check (see the message above)"),
+    }
+}
